@@ -69,8 +69,10 @@ Crossed == 1..17
 Groups == {18..20, 21..22, 23..24, 25..26, 27..28, 29..30}
 RECURSIVE HistOver(_, _)
 HistOver(n, pool) == IF n = 0 THEN {<<>>} ELSE {Append(h, c) : h \in HistOver(n - 1, pool), c \in pool}
-Histories == UNION {HistOver(n, Crossed) : n \in 0..H}
+Histories == UNION {HistOver(n, Crossed) : n \in 0..(IF H > 2 THEN 2 ELSE H)}
 HistObs == {<<h, o>> : h \in Histories, o \in Crossed}
+           \* deeper tier: every history of 3 calls, observed by calling the first one again (TLC renders about 25 programs a second)
+           \cup (IF H > 2 THEN {<<h, h[1]>> : h \in HistOver(3, Crossed)} ELSE {})
            \cup UNION {{<<h, o>> : h \in UNION {HistOver(n, g) : n \in 1..(H + 1)}, o \in g} : g \in Groups}
 
 HProg(h, obs) == Defs \o Prelude \o [j \in DOMAIN h |-> Guarded(CallPool[h[j]])] \o <<PrintS(<<Str("--")>>), Guarded(CallPool[obs])>>
